@@ -150,28 +150,35 @@ func (n *ParallelNode) Run(ctx context.Context) error {
 		}
 
 		// try sending the job to a worker
-		select {
-		case workerJobs <- job:
-			// we submitted the job to a worker, give it to the coordinator as well
-			coordinatorJobs <- job
-		case <-workersDone:
-			// no worker is running anymore, they must have all failed, nack the
-			// message and stop running
-			noWorkerRunningErr := cerrors.New("no worker is running")
-			err = msg.Nack(noWorkerRunningErr, n.ID())
-			if err != nil {
-				return err
+		var workerErr error
+		for dispatched := false; !dispatched; {
+			select {
+			case workerJobs <- job:
+				// we submitted the job to a worker, give it to the coordinator as well
+				coordinatorJobs <- job
+				dispatched = true
+			case <-workersDone:
+				// no worker is running anymore, they must have all failed, nack the
+				// message and stop running
+				noWorkerRunningErr := cerrors.New("no worker is running")
+				err = msg.Nack(noWorkerRunningErr, n.ID())
+				if err != nil {
+					return err
+				}
+				return noWorkerRunningErr
+			case coordinatorErr := <-errs:
+				// All workers are busy and the coordinator reported a failure. We
+				// have to take it here: while we wait for a free worker nobody
+				// calls trigger, so errs would fill up, the coordinator would block
+				// on it and no worker would ever become free again. Keep waiting
+				// for a worker, the coordinator nacks every message that follows
+				// a failed one, and stop once the message is handed over.
+				workerErr = cerrors.LogOrReplace(workerErr, coordinatorErr, func() {
+					n.logger.Warn(ctx).Err(coordinatorErr).Msg("parallel worker node failed")
+				})
 			}
-			return noWorkerRunningErr
-		case workerErr := <-errs:
-			// All workers are busy and the coordinator reported a failure. We
-			// have to take it here: while we wait for a free worker nobody
-			// calls trigger, so errs would fill up, the coordinator would block
-			// on it and no worker would ever become free again. The node stops
-			// on any error, nack the message we could not dispatch and return.
-			if nackErr := msg.Nack(workerErr, n.ID()); nackErr != nil {
-				n.logger.Warn(ctx).Err(nackErr).Msg("could not nack message after a parallel worker failed")
-			}
+		}
+		if workerErr != nil {
 			return workerErr
 		}
 	}
